@@ -124,6 +124,8 @@ HOLES = [
     ('\\', '\n'), ('x = "a\\', 'b"\n'), ('if x:\n  y\n ', 'z\n'), ('[\n', ']'), ('f"{x}', ''), ('0', 'x'),
     (BOM, 'x'), ('f"{x:{y', '}}"'), ('a ', ' b'), ("b'a", "\n"), ('class', ' A: pass'), ('f"{(', 'def'),
     ('a = 1\n', '\nb = 2\n'), ('x = a', '\n'), ('f"{f\'', ''), ("x = b", "'abc\\\ndef'\n"),
+    ("f'''{v:>", "10}'''\n"), ('f"abc\\', 'def"\r'), ('x = f"abc\\', 'def{y}"\n'), ('f"{x ', ' c}"\n'), ('"', "a\\\nb\"\n"),
+    ('f"{a:{w}', '}"\n'),
 ]
 
 
